@@ -30,6 +30,25 @@ def NinjaRule.hash (r : NinjaRule) : String :=
   hashTok "rule" (enc r.name ++ "|" ++ enc r.command ++ "|" ++ optS r.description ++ "|" ++ optS r.deps ++ "|"
     ++ optS r.pool ++ "|" ++ optS r.rspfile ++ "|" ++ optS r.rspfileContent ++ (if r.always then "|always" else ""))
 
+/-- `trim_end_matches(['\n', '\r'])` -/
+def trimLineEnd (s : String) : String :=
+  String.ofList (s.toList.reverse.dropWhile (fun c => c == '\n' || c == '\r')).reverse
+
+def hasLineBreak (s : String) : Bool := s.toList.contains '\n'
+
+def optHasLineBreak : Option String → Bool
+  | some s => hasLineBreak s
+  | none => false
+
+/-- `NinjaRule::single_line`: a line break that ends the command or the description is dropped (a YAML block scalar ends with one);
+    a line break anywhere else in a printed value is refused — a ninja value ends with its line (the code before the repair wrote
+    the value as it was, which cut the rule block in two; found by C06's oracle) -/
+def NinjaRule.singleLine (r : NinjaRule) : Option NinjaRule :=
+  let r' := { r with command := trimLineEnd r.command, description := r.description.map trimLineEnd }
+  if hasLineBreak r'.command || optHasLineBreak r'.description || optHasLineBreak r'.rspfile
+      || optHasLineBreak r'.rspfileContent || optHasLineBreak r'.pool || optHasLineBreak r'.deps then none
+  else some r'
+
 /-- `NinjaRule::named` -/
 def NinjaRule.named (r : NinjaRule) : NinjaRule := { r with name := r.name ++ "_" ++ r.hash }
 
